@@ -244,7 +244,7 @@ impl FloatEncoding for f32 {
                 mantissa <<= shift as u32;
             } else {
                 let shifted = mantissa << (30 + shift) as u32;
-                round_bits = (shifted >> 28 & 0b110) as u8 | ((shifted & 0xfffffff) != 0) as u8;
+                round_bits = (shifted >> 28 & 0b110) as u8 | ((shifted & 0x1fffffff) != 0) as u8;
                 mantissa >>= (-shift) as u32;
             }
 
@@ -266,7 +266,7 @@ impl FloatEncoding for f32 {
             bits = (sign << 31) | (exponent << 23) | (mantissa >> 9);
 
             // get the low bit of mantissa and two extra bits, and adding round-to-even adjustment
-            round_bits = ((mantissa >> 7) & 0b110) as u8 | ((mantissa & 0x7f) != 0) as u8;
+            round_bits = ((mantissa >> 7) & 0b110) as u8 | ((mantissa & 0xff) != 0) as u8;
         };
 
         if round_bits & 0b11 == 0 {
@@ -366,7 +366,7 @@ impl FloatEncoding for f64 {
             } else {
                 let shifted = mantissa << (62 + shift) as u64;
                 round_bits =
-                    (shifted >> 60 & 0b110) as u8 | ((shifted & 0xfffffffffffffff) != 0) as u8;
+                    (shifted >> 60 & 0b110) as u8 | ((shifted & 0x1fffffffffffffff) != 0) as u8;
                 mantissa >>= (-shift) as u32;
             }
 
@@ -388,7 +388,7 @@ impl FloatEncoding for f64 {
             bits = (sign << 63) | (exponent << 52) | (mantissa >> 12);
 
             // get the low bit of mantissa and two extra bits, and adding round-to-even adjustment
-            round_bits = ((mantissa >> 10) & 0b110) as u8 | ((mantissa & 0x3ff) != 0) as u8;
+            round_bits = ((mantissa >> 10) & 0b110) as u8 | ((mantissa & 0x7ff) != 0) as u8;
         };
 
         if round_bits & 0b11 == 0 {
